@@ -993,6 +993,20 @@ class FnEmitter:
             return inlined
         arg_cts = [self.ct(a) for a in args if a.get('kind') != 'CXXDefaultArgExpr']
         so = self.strip(obj)
+        if so.get('kind') == 'CXXOperatorCallExpr' and self.ct(obj).endswith(' *') and \
+                self.ty.is_oomd_struct(self.ct(obj)[:-2]):
+            oks = kids(so)
+            ocal = self.strip(oks[0])
+            while ocal.get('kind') == 'ImplicitCastExpr':
+                ocal = self.strip(kids(ocal)[0])
+            if ocal.get('referencedDecl', {}).get('name') == 'operator->' and self.ct(oks[1]).startswith('uptr_'):
+                # method called on ANOTHER instance of a class that is a struct in this unit (held by a
+                # unique_ptr): a boundary call on that instance's handle, NAME__h
+                ref = {'id': cal.get('referencedMemberDecl'), 'name': mname}
+                cn = self.callee_name(ref, self.ct(obj)[:-2], arg_cts) + '__h'
+                al = [self.expr(oks[1])] + [self.call_arg(a, ref, i) for i, a in enumerate(args)
+                                             if a.get('kind') != 'CXXDefaultArgExpr']
+                return '%s(%s)' % (cn, ', '.join(al))
         if so.get('kind') == 'CXXThisExpr':
             oct_ = self.ct(obj)
             oe = 'self'
@@ -1108,6 +1122,9 @@ class FnEmitter:
             if op == '[]':
                 return '(*%s__ref_at(%s, %s))' % (sanitize(ct0), self.expr(a0), self.expr(args[1]))
             return '(*%s__ref(%s))' % (sanitize(ct0), self.expr(a0))
+        if op == '[]' and ct0.startswith('umap_') and len(args) == 2:
+            # map operator[]: inserts when absent and yields an lvalue
+            return '(*%s__at_ref(%s, %s))' % (sanitize(ct0), self.expr(a0), self.expr(args[1]))
         if el and self.ty.is_oomd_struct(el) and ct0.startswith('opt_') and op in ('*', '->') and len(args) == 1 \
                 and self.strip(a0).get('valueCategory') == 'lvalue':
             return '(*%s__ptr(&%s))' % (sanitize(ct0), self.expr(a0))     # lvalue access to the contained struct
@@ -2284,8 +2301,18 @@ class Unit:
         text = '\n'.join(body)
         self.struct_funcs = self.gen_struct_funcs(struct_defs)
         out.append('/* library functions referenced by the extracted code */')
-        out.extend(lib.functions_for(text, open(os.path.join(os.path.dirname(os.path.abspath(
-            self.cfg['_cfg_path'])), self.cfg['spec'])).read()))
+        cdir = os.path.dirname(os.path.abspath(self.cfg['_cfg_path']))
+        spec_text = open(os.path.join(cdir, self.cfg['spec'])).read()
+        for inc in self.cfg.get('spec_includes', []):
+            try:
+                spec_text += '\n' + open(os.path.join(cdir, inc)).read()
+            except OSError:
+                pass
+        for inc in re.findall(r'#include "([^"]+)"', spec_text):
+            ip = os.path.join(cdir, inc)
+            if os.path.exists(ip) and inc not in self.cfg.get('spec_includes', []):
+                spec_text += '\n' + open(ip).read()
+        out.extend(lib.functions_for(text, spec_text))
         out.extend(body)
         if self.cfg.get('harness'):
             out.append('#include "%s"' % self.cfg['harness'])
